@@ -1207,3 +1207,7 @@ val param_toks : nat -> nat -> tok list
 val param_asts : nat -> nat -> ast list
 
 val trp : expr -> nat -> ((tok list * ast) * value list) option
+
+val number_q : bytes0 -> nat -> bool -> bool -> bytes0
+
+val number_placeholders : bytes0 -> bytes0
